@@ -61,7 +61,7 @@ func init() {
 						// the limit / nesting / spliced checks at the very top run before the form is looked at:
 						// they are stamped with the caller's location by design; only calls after the store's
 						// block or in blocks it dominates are of interest, others must be before it in program order
-						construct := ord.next("call " + f.Name())
+						construct := ord.next("call " + shortName(f))
 						if fc.Dominates(*storeLoc, Loc{b, i}) {
 							obs = append(obs, mkOb(c, "LOC.eval-sets", u, construct, ce, Proved, "dominated by `env.loc = v.source`", true))
 						} else if fc.Dominates(Loc{b, i}, *storeLoc) {
